@@ -4,6 +4,7 @@ import ParryModel.C08.RefitLemmas
 import ParryModel.C08.TrackedLemmas
 import ParryModel.C08.LinkLemmas
 import ParryModel.C08.TermLemmas
+import ParryModel.C08.Theorems2
 /-!
 # C08 property theorems: the QBVH stays valid under any history
 
